@@ -642,3 +642,35 @@ func init() {
 		return Val{S: x.heapGet(c.state(), "$clock", "Int"), T: tInt}, nil
 	}
 }
+
+func init() {
+	// (*metav1.Time).Before(u *Time): both non-nil and t.Time before u.Time
+	regLib("(*k8s.io/apimachinery/pkg/apis/meta/v1.Time).Before", func(x *FnExec, fr *frame, n *node, in ssa.Instruction, c *ssa.CallCommon, args []Val, reach, hint string) (Val, error) {
+		load := func(v Val) (string, string) {
+			a := x.pointerAddr(v)
+			if a == nil {
+				return "", "false"
+			}
+			nonNil := "true"
+			if v.Addr == nil {
+				nonNil = not(eq(v.S, "nil"))
+			}
+			mt := a.T // metav1.Time struct{ time.Time }
+			val := x.loadAddr(n.st, a)
+			st, ok := mt.Underlying().(*types.Struct)
+			if !ok || st.NumFields() != 1 {
+				return "", "false"
+			}
+			if x.timeType == nil {
+				x.timeType = st.Field(0).Type()
+			}
+			return x.instantOf(x.q.structGet(mt, val, 0)), nonNil
+		}
+		ti, tn := load(args[0])
+		ui, un := load(args[1])
+		if ti == "" || ui == "" {
+			return x.havocVal(hint, resultType(in, c), reach), nil
+		}
+		return Val{S: x.q.define(hint, "Bool", and(tn, un, fmt.Sprintf("(< %s %s)", ti, ui))), T: types.Typ[types.Bool]}, nil
+	})
+}
